@@ -376,16 +376,21 @@ class PrettyPrinter:
         if isinstance(value, bool):
             return str(value).upper()
 
+        if isinstance(value, dict):
+            # e.g. an empty dictionary created by accessing a missing key
+            if not value:
+                raise ValueError(
+                    f"The property {attr} has an empty dictionary as a value"
+                )
+            raise ValueError(
+                f"The property {attr} has a dictionary without a __type__ as a value"
+            )
+
         if "allOf" in attr_props and len(attr_props["allOf"]) == 1:
             # a single item allOf is used in the schemas to add metadata to a $ref
             attr_props = attr_props["allOf"][0]
 
         if any(i in ["enum"] for i in attr_props):
-            if isinstance(value, dict) and not value:
-                raise ValueError(
-                    f"The property {attr} has an empty dictionary as a value"
-                )
-
             if not isinstance(value, numbers.Number):
                 if attr == "compop":
                     return self.quoter.add_quotes(str(value))
